@@ -46,11 +46,11 @@ def explore_set(args):
     tg = sw.targets()
     out = []
     solo = {}
-    is_json = names[0] in sw.JSON_REQS or names[0] in sw.XML_REQS or names[0] in sw.JX_REQS or names[0] in sw.LX_REQS    # (no WSDL comparison)
+    is_json = names[0] in sw.JSON_REQS or names[0] in sw.XML_REQS or names[0] in sw.JX_REQS or (names[0] in sw.LX_REQS and 'lwsdl' not in names)   # (no WSDL comparison)
     make = (sw.make_app_json if names[0] in sw.JSON_REQS else sw.make_app_xml if names[0] in sw.XML_REQS
             else sw.make_app_jx if names[0] in sw.JX_REQS else sw.make_app_lxml if names[0] in sw.LX_REQS else sw.make_app)
     for n in set(names):
-        if n != 'wsdl':
+        if n not in sw.WSDLS:
             r0 = sw.call(WsgiApplication(make()), n)
             solo[n] = (sw.canon(r0[1]), r0[2])
     seq_wsdl = set()
@@ -58,7 +58,7 @@ def explore_set(args):
         w = WsgiApplication(make())
         for n in perm:
             st, b, _h = sw.call(w, n)
-            if n == 'wsdl':
+            if n in sw.WSDLS:
                 seq_wsdl.add(sw.canon_doc(b))
         seq_wsdl.add(sw.canon_doc(sw.call(w, 'wsdl')[1]))
 
@@ -99,7 +99,7 @@ def explore_set(args):
             if r is None or r[0] == 'EXC':
                 out.append(('shared|exception|%s|%s' % (n, where), 'request %s raised %s under a concurrent schedule' % (n, r),
                             {'schedule': sched, 'requests': names}))
-            elif n == 'wsdl':
+            elif n in sw.WSDLS:
                 if sw.canon_doc(r[1]) not in seq_wsdl:
                     out.append(('shared|wsdl-differs|%s' % where,
                                 'the ?wsdl served while racing with %s is not one any sequential order produces' % where,
@@ -125,12 +125,12 @@ def run(ctx, rnd):
     sets = [('fp', 'fq'), ('fq', 'fp', 'f'), ('f', 'boom', 'invalid'), ('wsdl', 'fq'), ('g', 'fp', 'wsdl'),
             ('pt', 'pt2'), ('seg', 'pt'), ('pts', 'seg', 'pt'), ('tag1', 'tag2'), ('tag1', 'pt'),
             ('lat', 'utf'), ('utf', 'latdecl', 'utf16'), ('reg', 'chk1'), ('jreg', 'jchk1'), ('jchk1', 'jreg', 'jchk2'),
-            ('vneg', 'vlong'), ('vlong', 'vok', 'vabc')]
+            ('vneg', 'vlong'), ('vlong', 'vok', 'vabc'), ('vwho', 'lwsdl'), ('vwholong', 'lwsdl', 'vok')]
     if not ctx.quick:
         sets += [('fp', 'fq', 'wsdl'), ('fp', 'fp'), ('wsdl', 'wsdl', 'fq'), ('f', 'g'), ('invalid', 'fq', 'boom'),
                  ('fp', 'fq', 'f', 'g')]
     bound, limit = (1, 250) if ctx.quick else (2, 4000)
-    with mp.get_context('fork').Pool(min(len(sets), 12)) as pool:
+    with mp.get_context('fork').Pool(min(len(sets), 14)) as pool:
         results = pool.map(explore_set, [(s, bound, limit) for s in sets], chunksize=1)
     total = 0
     for out, n in results:
